@@ -19,7 +19,7 @@ PROPERTY = "C16"
 LEVEL = "exploration"
 RULE = ("a case = (serializer with auto-proxy support, history of <= 16 steps from {register(obj k, id none|x|y|Pyro.Daemon|'', force, weak), "
         "unregister(obj k | id | unknown id | Pyro.Daemon), uriFor, proxyFor, call(id), registered, give(obj k) through a relay method, drop "
-        "last reference + gc}). Non-trivial: the history contains unregister-by-id, force, or weak+gc, followed by a call or a give; "
+        "last reference + gc (a strongly registered object must stay reachable then)}; pool = 2 truthy + 2 falsy instances + 1 class; plus a fixed catalogue of histories). Non-trivial: the history contains unregister-by-id, force, or weak+gc, followed by a call or a give; "
         "distinct = distinct case JSON")
 ASSUMPTIONS = ["an object registered under several ids (forced) is never unregistered BY OBJECT (the statement leaves open which id goes); if its marked id is taken over by another object only calls by id are judged for it",
                "forced replacement of Pyro.Daemon itself is not generated ('silently' is ambiguous for an explicit force)",
